@@ -98,6 +98,8 @@ def slotOracleAt (t : Nat) (seen : List Rat) (sc : Rat) (g : Rat) (z : Json) (p 
     [("finite", true),
      ("shape_positive", decide (alpha = 1 + (t : Rat) / 2)),
      ("rate_at_least_prior", decide (10 ≤ beta)),
+     ("rate_is_prior_plus_half_squared_deviations",
+        if t == 0 then decide (beta = 10) else close beta (10 + sqDev seen / 2) (eps9 * maxR beta (sc * sc))),
      ("variance_positive", decide (0 < v) && close (v * (alpha + 1)) beta (eps12 * beta)),
      ("count", n == t),
      ("mean_in_hull", t == 0 || (decide (minOf (seen.headD 0) seen - eps9 * sc ≤ mu) && decide (mu ≤ maxOf (seen.headD 0) seen + eps9 * sc))),
@@ -306,8 +308,16 @@ def handleComposite (j : Json) : R (List (String × Json)) := do
     ps := r.1
     out := out.push (Json.mkObj [("estimate", leaf e false), ("stop", Json.bool r.2)])
   let inUnit := implSteps.all (fun s => unitInterval (fldD s "estimate" Json.null))
+  -- SPEC: the composite estimate is at least every part's estimate, and one of them (0 without parts)
+  let idx := List.range steps.length
+  let upper := idx.all (fun i =>
+    match (steps.getD i Json.null).getObjVal? "gen" |>.toOption |>.bind (fun g => g.getNat?.toOption), fin? (fldD (implSteps.getD i Json.null) "estimate" Json.null) with
+    | some g, some e =>
+      let es := parts.map (partEstimate g)
+      es.all (fun x => decide (x ≤ e + eps9)) && (es.isEmpty && e == 0 || es.any (fun x => close x e eps9))
+    | _, _ => false)
   return [("model", Json.mkObj [("steps", Json.arr out)]),
-          ("oracle", objB [("estimate_in_unit_interval", inUnit)])]
+          ("oracle", objB [("estimate_in_unit_interval", inUnit), ("estimate_is_largest_part", upper)])]
 
 def relDistExact : List Rat → List Rat → Bool
   | a :: as, b :: bs =>
